@@ -16,7 +16,11 @@ META = dict(
                "override mask and any hook functions, and lifted to any interleaving (C10_concurrent). The models are tied "
                "to /repo on every run: 1-6 concurrent kiq() calls and 1-6 concurrent receiver.callback() calls with 0-3 "
                "recording middlewares (random masks, sync/async, message-replacing, instance-attribute hooks, hooks inherited from "
-               "base classes / mixins / re-overridden by a subclass, two instances of one class) must produce a "
+               "base classes / mixins / re-overridden by a subclass, two instances of one class, hooks that are plain "
+               "functions returning a Future / Task / object with __await__), a quarter of the send cases being 2-4 consecutive "
+               "sends on ONE kicker object re-pointed with with_broker / with_labels or whose broker gets more middlewares in "
+               "between (each send compared with kiq over the stack its broker has at that send), a fifth of the receive cases "
+               "giving the broker its backend / middlewares / formatter / tasks only after the Receiver was constructed, must produce a "
                "global log that is an interleaving of the model's sequences (compared in Coq); a Python oracle re-checks the "
                "statement on the real log.",
     level_note="Hooks that raise abort kiq / callback (FCrash) - modelled and covered by the correspondence; the once/order "
@@ -24,7 +28,7 @@ META = dict(
                "is sync or async does not appear in the model: the same prediction must match both (checked). Base-class "
                "hooks of TaskiqMiddleware are replaced by logging ones in the driver process, so a non-overridden hook that "
                "fires is observed. Known finding sync_generator_exit (D10) also affects this property.",
-    rule="case = (send) 1-6 concurrent kiq x stack x kick result, or (recv) 1-6 concurrent messages x stack x outcome; "
+    rule="case = (send) 1-6 kiq (concurrent, or consecutive steps on one reused kicker over 1-3 brokers) x stack x kick result, or (recv) 1-6 concurrent messages x stack x outcome; "
          "non-trivial iff >= 2 middlewares with different override masks, or a failing kick, or a no-result outcome / "
          "backend failure; distinct by canonical case",
     trusted_base=["model: coq/theories/Pipeline.v (hand-written transcription of AsyncKicker.kiq, Receiver.callback / run_task)",
